@@ -378,10 +378,12 @@ def optimize_circuit(seq):
                 b = q[i + 1]
                 # the ops must have equal size and act on the same wires
                 if a.op.ns == b.op.ns and a.reg == b.reg:
-                    if a.op.ns != 1:
+                    if a.op.ns != 1 or a.op.measurement_deps or b.op.measurement_deps:
                         # ns > 1 is tougher. on no wire must there be anything
                         # between them, also deleting is more complicated
                         # todo treat it as a failed merge for now
+                        # The same holds for operations with measured parameters: they
+                        # also sit on the wires of the modes they depend on.
                         i += 1
                         continue
                     op = a.op.merge(b.op)
